@@ -95,6 +95,11 @@ type Op struct {
 	Kind string `json:"kind,omitempty"`
 	ID   int    `json:"id"`
 
+	// the specification's view of the expressions (absent for garbage and native texts)
+	CondTree   *Cond `json:"condTree,omitempty"`
+	KeyTree    *Cond `json:"keyTree,omitempty"`
+	FilterTree *Cond `json:"filterTree,omitempty"`
+
 	// not on the wire: placeholders as Go maps
 	names   map[string]string
 	values  map[string]AV
